@@ -210,6 +210,22 @@ def _use_is_read_only(model, cg, fi, n, parent, depth=0):
         return True
     if isinstance(p, ast.Attribute) and p.value is n and isinstance(parent.get(id(p)), ast.Call) and parent[id(p)].func is p and p.attr in READ_ONLY_METHODS:
         return True
+    if isinstance(p, ast.Attribute) and p.value is n and isinstance(parent.get(id(p)), ast.Call) and parent[id(p)].func is p:
+        # a method of an instance of a package class made at import time: fine when that method (and what it calls on self) never changes the object
+        v = model.module_assigns.get(fi.module, {}).get(n.id)
+        if v is None:
+            t_ = model.imports.get(fi.module, {}).get(n.id)
+            if t_ and '.' in t_:
+                v = model.module_assigns.get(t_.rsplit('.', 1)[0], {}).get(t_.rsplit('.', 1)[1])
+                mod_ = t_.rsplit('.', 1)[0]
+            else:
+                mod_ = fi.module
+        else:
+            mod_ = fi.module
+        if isinstance(v, ast.Call):
+            cq = model.resolve_expr(mod_, v.func)
+            if cq in model.classes and _method_read_only(model, cq, p.attr, set()):
+                return True
     if isinstance(p, ast.Call) and isinstance(p.func, ast.Attribute) and p.func.attr == 'join' and n in p.args:
         return True
     if isinstance(p, (ast.BinOp, ast.BoolOp, ast.UnaryOp)) or (isinstance(p, ast.IfExp) and p.test is n):
@@ -236,6 +252,28 @@ def _use_is_read_only(model, cg, fi, n, parent, depth=0):
                 break
         return ok_all
     return False
+
+
+def _method_read_only(model, cq, name, seen):
+    """Method `name` of class cq, and every method it calls on self, stores nothing on self and calls no mutator on an attribute of self."""
+    if (cq, name) in seen:
+        return True
+    seen.add((cq, name))
+    fi = model.method(cq, name)
+    if fi is None:
+        return False
+    for x in ast.walk(fi.node):
+        if isinstance(x, ast.Attribute) and isinstance(x.ctx, (ast.Store, ast.Del)) and isinstance(x.value, ast.Name) and x.value.id == 'self':
+            return False
+        if isinstance(x, ast.Subscript) and isinstance(x.ctx, (ast.Store, ast.Del)) and isinstance(x.value, ast.Attribute) and isinstance(x.value.value, ast.Name) and x.value.value.id == 'self':
+            return False
+        if isinstance(x, ast.Call) and isinstance(x.func, ast.Attribute):
+            recv = x.func.value
+            if isinstance(recv, ast.Attribute) and isinstance(recv.value, ast.Name) and recv.value.id == 'self' and x.func.attr in MUTATORS:
+                return False
+            if isinstance(recv, ast.Name) and recv.id == 'self' and not _method_read_only(model, cq, x.func.attr, seen):
+                return False
+    return True
 
 
 def _param_read_only(model, cg, fi, param, depth):
@@ -411,7 +449,13 @@ def body_insensitive(model, cg, fi, body, loopvars, depth=0, E=None):
                     if cs.seq_add:
                         return False, 'calls %s, which appends to the ordered container(s) %s: their element order follows the hash order' % (t.name, sorted(cs.seq_add)[:3])
             if isinstance(n, (ast.Yield, ast.YieldFrom)):
-                return False, 'yields inside the loop'
+                # the order is handed on to whoever iterates this generator: fine when every such loop is itself an order-insensitive consumer
+                ok_, why_ = _generator_consumers_insensitive(model, cg, fi, depth, E)
+                if ok_ is None:
+                    raise AnalysisError('UNDECIDED: %s yields elements in hash order and this rule cannot follow where they go (%s)' % (fi.qual, why_))
+                if not ok_:
+                    return False, 'yields inside the loop (%s)' % why_
+                continue
             if isinstance(n, ast.Break):
                 return False, 'break selects the first element in hash order'
             if isinstance(n, ast.Return) and n.value is not None and not isinstance(n.value, ast.Constant):
@@ -427,6 +471,38 @@ def body_insensitive(model, cg, fi, body, loopvars, depth=0, E=None):
             if isinstance(n, ast.Call) and isinstance(n.func, ast.Attribute) and n.func.attr in ('append', 'extend', 'insert', 'write', 'appendleft'):
                 return False, 'appends to a sequence in iteration order (%s)' % src(n)[:50]
     return True, 'loop body only adds to sets, pins, tests or raises'
+
+
+def _generator_consumers_insensitive(model, cg, gen_fi, depth, E):
+    if depth > 3:
+        return None, 'generator chain too deep'
+    found = 0
+    for q, g in model.funcs.items():
+        parent = None
+        for n in walk_own(g.node):
+            if isinstance(n, ast.Call) and any(t is gen_fi or (t is not None and t.node is gen_fi.node) for (t, _rc) in cg.resolve_call(g, g.cls, n)):
+                found += 1
+                if parent is None:
+                    parent = {}
+                    for x in ast.walk(g.node):
+                        for c in ast.iter_child_nodes(x):
+                            parent[id(c)] = x
+                p = parent.get(id(n))
+                if isinstance(p, (ast.For, ast.AsyncFor)) and p.iter is n:
+                    lv = {x.id for x in ast.walk(p.target) if isinstance(x, ast.Name)}
+                    ok_, why_ = body_insensitive(model, cg, g, p.body, lv, depth + 1, E)
+                    if not ok_:
+                        return False, 'consumed by %s: %s' % (g.qual, why_)
+                elif isinstance(p, ast.Call) and src(p.func) in ('set', 'frozenset', 'any', 'all', 'sum', 'len', 'sorted', 'min', 'max'):
+                    pass
+                elif isinstance(p, ast.Call) and isinstance(p.func, ast.Attribute) and p.func.attr in ('append', 'extend') and depth < 3:
+                    # pushed on a work list (an explicit stack of iterators): judged where the stack is drained - conservatively order-sensitive
+                    return None, 'stored by %s' % g.qual
+                else:
+                    return None, 'consumed by %s through %s' % (g.qual, src(p)[:40] if p is not None else '?')
+    if not found:
+        return None, 'no consumer found'
+    return True, ''
 
 
 def consumer_ok(model, cg, E, fi, kind, node, isset):
